@@ -48,7 +48,18 @@ def prefix_pdu(ver, rec, flags):
     return hdr(ver, IPV6_PREFIX, 0, 32) + bytes([flags & 0xff, ln & 0xff, mx & 0xff, 0]) + bits_to_bytes(bits) + struct.pack(">I", asn)
 
 
+LATE_KEYS = 1 << 24
+
+
 def kid_to_key(kid):
+    if kid >= LATE_KEYS:
+        # a family of keys as real ones are: one SKI, SPKIs with a common DER header, equal up to their last byte
+        # (only on the wire: `pre key` lines, whose bytes harness and model driver compute from the id, never use them)
+        fam, tail = (kid >> 8) & 0xff, kid & 0xff
+        ski = bytes((fam + i * 7) & 0xff for i in range(SKI_SIZE))
+        hdr = bytes.fromhex("3059301306072a8648ce3d020106082a8648ce3d030107034200")
+        spki = (hdr + bytes((fam + i) & 0xff for i in range(SPKI_SIZE)))[:SPKI_SIZE - 1] + bytes([tail])
+        return ski, spki
     ski = bytes(((kid >> 8) + i * 7) & 0xff for i in range(SKI_SIZE))
     spki = bytes((kid + i * 3) & 0xff for i in range(SPKI_SIZE))
     return ski, spki
@@ -267,6 +278,11 @@ class Cache:
             pool.append(("p", (fam, bits, ln, rnd.choice([ln, w, min(w, ln + 3)]), rnd.choice([0, 1, 65000, 2 ** 32 - 1]))))
         for _ in range(130 if big else 4):
             pool.append(("k", (rnd.choice([1, 65000, 7]), rnd.randint(0, 60000))))
+        if rnd.random() < 0.5:
+            # two or three keys of one AS and SKI whose SPKIs differ in the last byte only
+            a, fam = rnd.choice([1, 65000, 7]), rnd.randrange(256)
+            for t in rnd.sample(range(256), rnd.randint(2, 3)):
+                pool.append(("k", (a, LATE_KEYS + (fam << 8) + t)))
         out = []
         for x in pool:
             if x not in out:
@@ -363,7 +379,7 @@ def build_conversation(rnd, nex=6, fault_p=0.45, cfg=None, chunking=None, faults
                                     rnd.choice([599, 600, 7200, 172800, 172801])))
     if pre:
         for _ in range(rnd.randint(0, 3)):
-            it = rnd.choice(cache.pool)
+            it = rnd.choice([x for x in cache.pool if not (x[0] == "k" and x[1][1] >= LATE_KEYS)] or cache.pool[:1])
             src = rnd.randint(2, 3)
             line = ("pre pfx %s %s %d %d %d %d" % (it[1] + (src,))) if it[0] == "p" else ("pre key %d %d %d" % (it[1] + (src,)))
             if line not in s.pre:
